@@ -24,14 +24,17 @@ import (
 	"go/parser"
 	"go/token"
 	"os"
+	"os/exec"
 	"path/filepath"
 	"regexp"
 	"sort"
 	"strconv"
 	"strings"
+	"sync"
 	"time"
 
 	"verif/internal/pipe"
+	"verif/internal/seam"
 )
 
 // c14Prog is one input of the C14 universe.
@@ -283,6 +286,53 @@ func extPrograms(thorough bool) []*c14Prog {
 					}
 					files["providers.go"] = src + local.String()
 					prog.Dirs = map[string]map[string]string{".": files}
+					out = append(out, prog)
+				}
+			}
+		}
+	}
+	// layout "same-set": both uses are elements of ONE provider set (the order in which one set's elements reach
+	// the import table is what decides which namesake keeps the plain name)
+	setPairs := [][2]string{{"a", "b"}, {"b", "a"}, {"a", "plain"}, {"ext2", "plain"}}
+	secondSet := []string{"func", "struct", "fieldsof", "bind"}
+	if thorough {
+		secondSet = append(secondSet, "value", "ifacevalue", "struct-field-named-like-package")
+	}
+	for _, pr := range setPairs {
+		p1, p2 := extPkgs[pr[0]], extPkgs[pr[1]]
+		for _, use1 := range extUses {
+			if use1.Elems == nil || use1.NoFile || use1.Local != nil {
+				continue
+			}
+			for _, use2 := range extUses {
+				if use2.Elems == nil || indexOf(secondSet, use2.Label) < 0 {
+					continue
+				}
+				for _, sp := range [][2]string{{"", "q2"}, {"q1", "q2"}, {"q1", ""}} {
+					q1, q2 := orStr(sp[0], p1.Name), orStr(sp[1], p2.Name)
+					if q1 == q2 {
+						continue
+					}
+					same := "distinct-packages-distinct-names"
+					if p1.Name == p2.Name {
+						same = "two-packages-one-name"
+					}
+					namesake := "no"
+					if same == "two-packages-one-name" && ((use1.Typed && q2 == p1.Name) || (use2.Typed && q1 == p2.Name)) {
+						namesake = "yes"
+					}
+					imp := func(p extPkg, alias string) string {
+						if alias == "" {
+							return fmt.Sprintf("\t%q\n", p.Path)
+						}
+						return fmt.Sprintf("\t%s %q\n", alias, p.Path)
+					}
+					src := "//go:build wireinject\n\npackage app\n\nimport (\n\t\"github.com/google/wire\"\n" + imp(p1, sp[0]) + imp(p2, sp[1]) + ")\n\n" +
+						fmt.Sprintf("var Set1 = wire.NewSet(%s, %s)\n", use1.Elems(q1, 1), use2.Elems(q2, 2))
+					prog := &c14Prog{Family: "X", Cwd: ".", Patterns: []string{"."}}
+					prog.Name = fmt.Sprintf("%s as %q: %s  +  %s as %q: %s  [same-set]", p1.Path, q1, use1.Label, p2.Path, q2, use2.Label)
+					prog.Pre = fmt.Sprintf("pkgs=%s+%s,%s,use=%s+%s,layout=same-set,spelling=%s+%s,namesake-in-type-use-file=%s", pr[0], pr[1], same, use1.Label, use2.Label, orStr(sp[0], "unaliased"), orStr(sp[1], "unaliased"), namesake)
+					prog.Dirs = map[string]map[string]string{".": {"wire_a.go": src, "providers.go": "package app\n"}}
 					out = append(out, prog)
 				}
 			}
@@ -658,6 +708,9 @@ func runC14(args []string) {
 		}
 		runC14Prog(we, p, i)
 	})
+	// map iteration order inside internal/migrate: every permutation of every reached range-over-map site, on the
+	// external-package programs and the multi-file bases (the ones whose output depends on several imports / sets)
+	seamStats := c14MapOrder(we, rc, progs)
 	t1 := time.Now()
 	out, _ := bulkBuild(we.Dir, "build", "-buildvcs=false", "-gcflags=-e", "./c14c/...")
 	errs := splitBuildErrors(string(out), "corpus/c14c/")
@@ -704,7 +757,7 @@ func runC14(args []string) {
 	rc.Coverage = map[string]any{
 		"evaluations":                      len(progs),
 		"distinct_nontrivial":              len(distinct),
-		"rule":                             "L: C13's universe without the unused-argument / declared-only-error variants, without n=4 and without the flat n=3 configurations outside the reduced alphabet, i.e. " + rule + " X: ordered pairs of external packages {two packages named config, the same package twice, a package whose name differs from its directory, a package named s (the receiver name of generated FieldsOf accessors), a plain one} x use of the first {provider func, Value, Struct, Bind+ctor, FieldsOf, InterfaceValue, injector result type, field of a local struct, struct with a field named like the package, FieldsOf over a local struct next to it, injector parameter only} x use of the second {func, Struct} (thorough: + Bind, FieldsOf, injector result, field of a local struct) x layout/spelling {same file: unaliased+alias, two aliases, both unaliased; two files: both unaliased, same alias for both, distinct aliases, one aliased; three files (the third uses a third package named config, or the plain one): unaliased} (thorough: + three files under one alias). M/I: valid local packages with 1..3 wire files and, planted at every file (providers.go included) or pattern position: syntax error (2 shapes), type error (3 shapes), different package clause, two packages in one invocation (different names / one name / one name + same set name), set redeclared in another file, wire.Bind without New<T> (in a set / in wire.Build). Every program: 3 CLI runs on success (GOMAXPROCS 1/4/16, output removed in between), 2 on failure (without / with a previous output file of known content and old mtime). distinct = distinct migrated texts modulo digits",
+		"rule":                             "L: C13's universe without the unused-argument / declared-only-error variants, without n=4 and without the flat n=3 configurations outside the reduced alphabet, i.e. " + rule + " X: ordered pairs of external packages {two packages named config, the same package twice, a package whose name differs from its directory, a package named s (the receiver name of generated FieldsOf accessors), a plain one} x use of the first {provider func, Value, Struct, Bind+ctor, FieldsOf, InterfaceValue, injector result type, field of a local struct, struct with a field named like the package, FieldsOf over a local struct next to it, injector parameter only} x use of the second {func, Struct} (thorough: + Bind, FieldsOf, injector result, field of a local struct) x layout/spelling {same file: unaliased+alias, two aliases, both unaliased; two files: both unaliased, same alias for both, distinct aliases, one aliased; three files (the third uses a third package named config, or the plain one): unaliased} (thorough: + three files under one alias); plus layout same-set: both uses as elements of ONE wire.NewSet, second use in {func, Struct, FieldsOf, Bind} (thorough: + Value, InterfaceValue, struct with a field named like the package). Map order: the CLI rebuilt with every range-over-map of internal/migrate routed through a seam; for every successful X / M program every permutation of every reached site visit must reproduce the canonical output. M/I: valid local packages with 1..3 wire files and, planted at every file (providers.go included) or pattern position: syntax error (2 shapes), type error (3 shapes), different package clause, two packages in one invocation (different names / one name / one name + same set name), set redeclared in another file, wire.Bind without New<T> (in a set / in wire.Build). Every program: 3 CLI runs on success (GOMAXPROCS 1/4/16, output removed in between), 2 on failure (without / with a previous output file of known content and old mtime). distinct = distinct migrated texts modulo digits",
 		"samples":                          samples,
 		"exhaustive":                       exhaustive,
 		"programs_by_family":               fam,
@@ -716,13 +769,146 @@ func runC14(args []string) {
 		"invalid_inputs_refused":           invalidRefused,
 		"refusal_messages":                 refusals,
 		"tree_hash":                        we.env.Hash,
+		"map_order":                        seamStats,
 	}
 	rc.Assume = []string{
 		"imports == used packages is decided by the Go compiler (unused and missing imports are both compile errors)",
 		"repeated runs start from the same input state (the previous output is removed): a kessoku.go left in the package is itself part of the next run's input",
-		"the map-order seam of C11 is not applied to internal/migrate; scheduling is varied through GOMAXPROCS only",
+		"map iteration order inside internal/migrate is enumerated through the seam of C11 (all k! orders per reached site for k <= 4, one deviating site visit at a time); scheduling is varied through GOMAXPROCS",
 		"external set variables (pkg.Set) are not used: they stay wire sets after migrating one package",
 	}
 	we.Cleanup()
 	rc.Finish()
+}
+
+// c14MapOrder re-runs the successful programs under a CLI whose range-over-map loops in internal/migrate go through
+// the seam, once per permutation of every reached site visit; the output must equal the canonical one.
+func c14MapOrder(we *wireEnv, rc *RunCtx, progs []*c14Prog) map[string]any {
+	seamDir := filepath.Join(we.env.Work, "seam-c14")
+	ov, err := seam.Build(pipe.GoBin, pipe.RepoDir(), pipe.RepoGoEnv(), "github.com/mazrean/kessoku", []string{"internal/migrate"}, seamDir)
+	if err != nil {
+		fmt.Println("SETUP-FAILED: map-order seam (internal/migrate):", err)
+		os.Exit(2)
+	}
+	ovPath := filepath.Join(seamDir, "overlay.json")
+	_ = ov.WriteJSON(ovPath)
+	seamBin := filepath.Join(we.env.Work, "bin", "kessoku-seam-migrate")
+	bcmd := exec.Command(pipe.GoBin, "build", "-buildvcs=false", "-tags", "verif", "-overlay", ovPath, "-o", seamBin, "./cmd/kessoku")
+	bcmd.Dir = pipe.RepoDir()
+	bcmd.Env = pipe.RepoGoEnv()
+	if out, err := bcmd.CombinedOutput(); err != nil {
+		fmt.Printf("SETUP-FAILED: building the CLI with the map-order seam: %v\n%s\n", err, out)
+		os.Exit(2)
+	}
+	type job struct {
+		p    *c14Prog
+		spec string
+	}
+	var sel []*c14Prog
+	for _, p := range progs {
+		if (p.Family == "X" || p.Family == "M") && p.exit[0] == 0 && p.wrote && p.Invalid == "" {
+			sel = append(sel, p)
+		}
+	}
+	var mu sync.Mutex
+	var jobs []job
+	sites := map[string]bool{}
+	exhaustive := true
+	runSeam := func(p *c14Prog, tag string, extra ...string) (int, []byte, string) {
+		// a private copy of the program's directory tree (parallel runs must not share the output file)
+		src := filepath.Join(we.Dir, "c14", p.id)
+		dst := filepath.Join(we.Dir, "c14s", p.id+"-"+tag)
+		_ = os.RemoveAll(dst)
+		mustOK(os.MkdirAll(filepath.Dir(dst), 0o755))
+		if out, err := exec.Command("cp", "-a", src, dst).CombinedOutput(); err != nil {
+			fmt.Println("EXPLORER-FAILED: cp:", string(out))
+			os.Exit(2)
+		}
+		defer os.RemoveAll(dst)
+		cwd := filepath.Join(dst, p.Cwd)
+		_ = os.Remove(filepath.Join(cwd, "kessoku.go"))
+		logf := filepath.Join(dst, ".seamlog")
+		args := append([]string{"-l", "error", "migrate", "-o", "kessoku.go"}, p.Patterns...)
+		code, _ := runTool(cwd, append([]string{"VERIF_SEAM_LOG=" + logf}, extra...), seamBin, args...)
+		b, _ := os.ReadFile(filepath.Join(cwd, "kessoku.go"))
+		lb, _ := os.ReadFile(logf)
+		return code, b, string(lb)
+	}
+	// the copy lives under another directory name: package paths inside the corpus module change with it, so the
+	// canonical text is the seam binary's own identity-order output (which must in turn equal the plain CLI's
+	// output modulo that path)
+	canon := make([][]byte, len(sel))
+	pipe.Parallel(len(sel), 16, func(i int) {
+		p := sel[i]
+		code, b, log := runSeam(p, "id")
+		if code != 0 || generalize(strings.ReplaceAll(string(b), "c14s/"+p.id+"-id", "c14/"+p.id)) != generalize(p.out) {
+			mu.Lock()
+			p.add("seam-baseline-differs", "harness", "the CLI built with the map-order seam (identity order) does not reproduce the canonical output; the seam would misrepresent the code", map[string]any{"seam_output": string(b)})
+			rc.Add(p.findings[len(p.findings)-1])
+			mu.Unlock()
+			return
+		}
+		canon[i] = b
+		for _, l := range strings.Split(strings.TrimSpace(log), "\n") {
+			var site string
+			var occ, k int
+			var sortable bool
+			if n, _ := fmt.Sscanf(l, "%s %d %d %t", &site, &occ, &k, &sortable); n != 4 || k < 2 {
+				continue
+			}
+			perms, ex := seam.Permutations(k)
+			mu.Lock()
+			sites[site] = true
+			if !ex || !sortable {
+				exhaustive = false
+			}
+			if len(perms) > 30 {
+				perms, exhaustive = perms[:30], false
+			}
+			for _, pm := range perms[1:] {
+				var ps []string
+				for _, x := range pm {
+					ps = append(ps, fmt.Sprint(x))
+				}
+				jobs = append(jobs, job{p: p, spec: fmt.Sprintf("%s:%d:%s", site, occ, strings.Join(ps, ","))})
+			}
+			mu.Unlock()
+		}
+	})
+	canonOf := map[*c14Prog][]byte{}
+	for i, p := range sel {
+		canonOf[p] = canon[i]
+	}
+	applied := 0
+	pipe.Parallel(len(jobs), 16, func(j int) {
+		jb := jobs[j]
+		tag := fmt.Sprintf("j%d", j)
+		code, b, log := runSeam(jb.p, tag, "VERIF_SEAM="+jb.spec)
+		mu.Lock()
+		defer mu.Unlock()
+		if strings.Contains(log, "APPLIED "+jb.spec) {
+			applied++
+		}
+		want := strings.ReplaceAll(string(canonOf[jb.p]), "c14s/"+jb.p.id+"-id", "c14s/"+jb.p.id+"-"+tag)
+		if code != 0 || string(b) != want {
+			site := jb.spec[:strings.IndexByte(jb.spec, ':')]
+			jb.p.add("map-order-dependent-output", site, fmt.Sprintf("exit %d; the migrated file differs from the canonical one when the map at %s is iterated in another order (VERIF_SEAM=%s)", code, site, jb.spec), map[string]any{"seam": jb.spec, "got": string(b)})
+			rc.Add(jb.p.findings[len(jb.p.findings)-1])
+			jb.p.findings = jb.p.findings[:len(jb.p.findings)-1]
+		}
+	})
+	if len(jobs) > 0 && applied < len(jobs)*9/10 {
+		fmt.Printf("EXPLORER-FAILED: only %d of %d map-order permutations were actually applied by the seam\n", applied, len(jobs))
+		os.Exit(2)
+	}
+	var sl []string
+	for s := range sites {
+		sl = append(sl, s)
+	}
+	sort.Strings(sl)
+	var rewritten []string
+	for _, st := range ov.Sites {
+		rewritten = append(rewritten, st.File+":"+fmt.Sprint(st.Line)+" range "+st.Expr)
+	}
+	return map[string]any{"programs": len(sel), "range_over_map_sites_in_internal_migrate": rewritten, "sites_reached_with_two_or_more_keys": sl, "permutations_run": len(jobs), "permutations_applied": applied, "exhaustive_per_site": exhaustive, "skipped_by_rewriter": ov.Skipped}
 }
